@@ -35,12 +35,17 @@ def check(seed, tier):
         return i
     core.canary(rep, TRACE_SPEC, meta["files"][0], mutate, n=80)
     rep.traces, rep.events = meta["cases"], meta["events"]
+    skipped = meta["extra"].get("prerequisite_analysis_panics", 0)
+    if skipped:
+        rep.notes.append("%d generated programs carry no observation: function-signature / pointer-inference computation panicked before "
+                         "the check ran (stage recorded in the event; defects of those analyses, outside this property)" % skipped)
     return rep.finish("model_checking", {
         "distinct_nontrivial": meta["distinct_nontrivial"],
         "rule": "a case is one random project run through the real cwe_476 check (event: project, configured symbols, reported source call TIDs); "
                 "non-trivial = the program contains a source call (configured symbol, with return site) and at least one source call is reported; "
                 "distinct = distinct case hashes",
         "source_calls": meta["extra"].get("source_calls"), "reported_source_calls": meta["extra"].get("reported_source_calls"),
+        "prerequisite_analysis_panics": skipped,
         "samples": [str(s)[:1500] for s in meta["samples"][:2]], "exhaustive": False, "trusted_base": TRUSTED,
     }, ["programs: 1-3 functions with 2-6 blocks; may-taint / never-taint register pools; stores store never-taint expressions only",
         "one or two calling conventions per project; extern calls with 0-3 declared parameters incl. a 32-bit sub-register and a stack parameter; "
